@@ -757,6 +757,13 @@ class Discharger:
         gen = src[3]['callee'].get('gen', []) if isinstance(src[3], dict) else []
         target = gen[0] if gen else '?'
         inner = strip(src[2][0], transparent=False)
+        if b.kind == 'closure':
+            # inside `opt.map_or(0, |m| m.as_str().parse().unwrap())` the text is the closure's parameter: the payload of `opt`
+            from .interval import closure_arg_expr
+            from .facts import rebuild
+            pe = closure_arg_expr(b, 2)
+            if pe is not None:
+                inner = rebuild(inner, lambda n: pe[1] if n[0] == 'arg' and n[1] == 2 else n)
         txt = render(inner)
         m = re.fullmatch(r'.*Captures::name\([^"]*"(\w+)"\)\)?( as Some\.0)?\)*', txt)
         g = re.search(r'Captures::name\([^"]*"(\w+)"\)', txt)
@@ -1092,6 +1099,20 @@ class Discharger:
         for i in range(1, 4):
             txt = render(b.expr(ob.term['args'][i]))
             g = re.findall(r'Captures::name\([^"]*"(\w+)"\)', txt)
+            for x in g:
+                # the group's digit language, when the parse obligation itself has not been looked at yet (it may sit in a closure)
+                if ('parse:%s' % x) not in self.env:
+                    gl = self.group_language(b, x)
+                    if gl and gl[1]:
+                        mx, okd = 0, True
+                        for sub in gl[1]:
+                            lang = enumerate_language(sub, limit=20000)
+                            if lang is None or not all(re.fullmatch(r'[0-9]{1,9}', w) for w in lang):
+                                okd = False
+                                break
+                            mx = max([mx] + [int(w) for w in lang])
+                        if okd:
+                            self.env['parse:%s' % x] = (0, mx)
             if g and all(('parse:%s' % x) in self.env for x in g):
                 oks.append(max(self.env['parse:%s' % x][1] for x in g))
             elif re.fullmatch(r'-?\d+', txt):
